@@ -4,6 +4,7 @@ import Rare.Model.C09Utf8
 import Rare.Spec.C09Frag
 import Rare.Model.C09Err
 import Rare.Spec.C09WFB
+import Rare.Spec.C09Pos
 /-!
 Line-protocol ops of C09.
 
@@ -32,6 +33,12 @@ Line-protocol ops of C09.
                                                   decision procedure `wfB` of the grammar `WellFormed` (proved equivalent,
                                                   `wellformed_decidable`) – no compile on the model side; the real side
                                                   answers with `errors.Is` for the three sentinels (`compile_ok_iff_wellformed`)
+  serr  <opt> <template raw bytes>                 the SPEC's answer to "which syntax errors, where, with which text, in which
+                                                  order": `synErrs` (`Spec/C09Pos.lean`; no compile on the model side); the
+                                                  real side lists the recorded errors whose `Err` is one of the three sentinels
+                                                  (`syntax_errors_exact`)
+  kbapi <name> <template raw bytes>                `NewKeyBuilder()` (optimiser on), `Funcs(map)`, `HasFunc(name)`,
+                                                  `StageCount()`, `DetailedError.Unwrap()` of every recorded error
   streex <opt> <tokens> <elems> <keys>            the same without the claim: any tree over the standard names; the
                                                   theorem is checked when `fragOk` holds, otherwise only compile + evaluate
 -/
@@ -132,8 +139,32 @@ def lookStr : Look → String
 def testFuncMsg (tag : String) : String :=
   if tag == "argcount" then "invalid number of arguments" else "?" ++ tag
 
+def synKindStr : SynKind → String
+  | .unterminated => "unterminated"
+  | .emptyStatement => "empty"
+  | .missingFunction => "missing"
+
+def synErrsStr (es : List SynErr) : String :=
+  if es.isEmpty then "." else
+  ",".intercalate (es.map fun e => s!"{synKindStr e.kind}@{e.index}:{Hex.enc (encodeRunes e.context)}")
+
 def handle (args : List String) : String :=
   match args with
+  | ["serr", _, t] =>
+    match Hex.dec t with
+    | some tb => "ok " ++ synErrsStr (synErrs splitArgs (fun n => (testRegistry n).isSome) (decodeRunes tb))
+    | none => "bad-args"
+  | ["kbapi", n, t] =>
+    match Hex.dec n, Hex.dec t with
+    | some nb, some tb =>
+      let reg := pureRegistry probeNames probeSem
+      match compileBytes reg true tb with
+      | .error m => Rare.Drv.Expr.panicAns m
+      | .ok (stages, errs) =>
+        let un := errs.map fun e => match e.kind with
+          | .unterminated => "unterminated" | .emptyStatement => "empty" | .missingFunction => "missing" | .func _ => "other"
+        s!"ok has={if (reg (decodeRunes nb)).isSome then 1 else 0} n={stages.length} unwrap={if un.isEmpty then "." else ",".intercalate un}"
+    | _, _ => "bad-args"
   | ["look", o, t] =>
     match Hex.dec t with
     | some tb =>
